@@ -11,13 +11,13 @@ Definition brun_prefix (me : N) (evs : list bev) : bstate := fold_left (bstep_ge
 Definition f12_adv : badv := {| ba_agg4 := 32; ba_agg6 := 128; ba_lp := 0; ba_comms := []; ba_nodes := [0]; ba_peers := [] |}.
 (* peer 0 only on nodes labelled (0,0); the node is relabelled *)
 Definition f12_history : list bev :=
-  [ BCfg [ {| pc_name := 0; pc_sels := [[(0, 0)]]; pc_attr := 0 |} ];
+  [ BCfg [ {| pc_name := 0; pc_sels := [[(0, 0)]]; pc_attr := 0; pc_ref := 0 |} ];
     BNode 0 [(0, 0)];
     BSet 0 [V4 169090561] [f12_adv];
     BNode 0 [(0, 1)] ].
 (* peer 0 is removed from the configuration *)
 Definition f12_history_cfg : list bev :=
-  [ BCfg [ {| pc_name := 0; pc_sels := []; pc_attr := 0 |} ];
+  [ BCfg [ {| pc_name := 0; pc_sels := []; pc_attr := 0; pc_ref := 0 |} ];
     BSet 0 [V4 169090561] [f12_adv];
     BCfg [] ].
 
